@@ -659,6 +659,38 @@ func (d *c16Drv) sv(kv map[string]string) string {
 	return "SV " + c16Status(r) + " " + effect + " |" + side
 }
 
+// The state largeFileReceive is in between mh.Upload (hdl_files.go:318) and FinishUpload (:327),
+// i.e. what a concurrent request sees while an upload is running, and what stays when the server
+// stops there: the REAL fs handler's Upload (os.Create + store.Files.StartUpload + io.Copy) on a
+// FileDef built like the handler builds it, and no FinishUpload.
+func (d *c16Drv) inflight(w []string) string {
+	fid, _ := strconv.Atoi(w[1])
+	n, _ := strconv.Atoi(w[3])
+	content := c16Content(w[2], n, fid)
+	buff := content
+	if len(buff) > 512 {
+		buff = buff[:512]
+	}
+	fdef := &types.FileDef{
+		ObjHeader: types.ObjHeader{Id: store.Store.GetUidString()},
+		User:      d.users[1].String(),
+		MimeType:  http.DetectContentType(buff),
+	}
+	fdef.InitTimes()
+	d.useHandler("fs")
+	before := d.snap()
+	if _, _, err := store.Store.GetMediaHandler().Upload(fdef, bytes.NewReader(content)); err != nil {
+		return "INFLIGHT failed-" + c16Hex(err.Error())
+	}
+	after := d.snap()
+	rec, ok := after.recs[fdef.Id]
+	if !ok || len(after.recs) != len(before.recs)+1 || len(after.dir) != len(before.dir)+1 || rec.Status != types.UploadStarted {
+		return "INFLIGHT odd"
+	}
+	d.files[fid] = &c16File{id: fdef.Id, url: c16ServeURL + fdef.Id, content: content}
+	return "INFLIGHT ok"
+}
+
 // disposition of a record with an arbitrary content type through the real handler
 func (d *c16Drv) fa(asatt string, mime string) string {
 	fdef := &types.FileDef{ObjHeader: types.ObjHeader{Id: store.Store.GetUidString()}, MimeType: mime}
@@ -957,6 +989,8 @@ func (d *c16Drv) line(w []string) string {
 		return d.up(vKV(w[1:]))
 	case "SV":
 		return d.sv(vKV(w[1:]))
+	case "INFLIGHT": // INFLIGHT <fid> <kind> <n>: an upload that is between StartUpload and FinishUpload
+		return d.inflight(w)
 	case "RESOLVE": // RESOLVE <template>: the id the configured media handler extracts, as a file index
 		id := store.Store.GetMediaHandler().GetIdFromUrl(d.expand(w[1]))
 		if id.IsZero() {
